@@ -22,7 +22,9 @@ def ops_all():
     for i in [('abs', 0), ('abs', -1), ('abs', 1), ('len', 0), ('abs', -4)]:
         ops.append(('pop', i))
         ops.append(('getitem', i))
-    ops += [('reverse',), ('clear',), ('slice', 0, 1), ('slice', 1, None), ('slice', None, -1), ('slice', 0, 0)]
+    ops += [('reverse',), ('clear',), ('slice', 0, 1), ('slice', 1, None), ('slice', None, -1), ('slice', 0, 0),
+            ('slice3', None, None, 2), ('slice3', None, None, -1), ('slice3', 1, None, 2), ('slice3', None, None, -2),
+            ('extendgen', ('b1', 'k2'))]      # (item assignment / del are not among the operations the property lists)
     return ops
 
 
